@@ -5,7 +5,7 @@ func init() {
 		{ID: "C04",
 			Harnesses: []harnessSpec{
 				{Name: "HarnessC04Recycle", Bounds: "inductive step: every sync.Pool.Get returns a stale object (scalar fields unconstrained solver variables, reference fields poisoned); mixed family of 7 keyword groups (numbers, strings+pattern+format, objects, arrays, anyOf/oneOf, allOf/not, nested) x AgainstSchema | recycling SchemaValidator; compared with a fresh non-recycling validation"},
-				{Name: "HarnessC04History", Bounds: "history mode: LIFO pools, one arbitrary operation of the mixed family followed by a probe operation (3 shapes borrowing from several pools); second outcome compared with fresh"},
+				{Name: "HarnessC04History", HistoryDependent: true, Bounds: "history mode: LIFO pools, one arbitrary operation of the mixed family followed by a probe operation (3 shapes borrowing from several pools); second outcome compared with fresh"},
 				{Name: "HarnessC04ParamHeader", Bounds: "parameter / header validators with WithRecycleValidators(true) in havoc pools vs fresh, incl. first-error exits and nil data"},
 			},
 			Assumptions: []string{"pool invariant Inv assumed for the pre-state and re-checked: no object twice in a pool (double-put monitor), no pooled object used (use-after-put monitor) or reachable from the returned values (escape check)", "sync.Pool contract: Get returns New() or any object previously Put"},
@@ -21,7 +21,7 @@ func init() {
 		},
 		{ID: "C11",
 			Harnesses: []harnessSpec{
-				{Name: "HarnessC11Panic", Bounds: "the format checker panics at its k-th call, k in 1..3 (quick) / 1..4 (thorough), during AgainstSchema on the mixed family; caller recovers; pool monitors + a later allOf-of-two-formats validation compared with fresh"},
+				{Name: "HarnessC11Panic", HistoryDependent: true, Bounds: "the format checker panics at its k-th call, k in 1..3 (quick) / 1..4 (thorough), during AgainstSchema on the mixed family; caller recovers; pool monitors + a later allOf-of-two-formats validation compared with fresh"},
 			},
 			Assumptions: []string{"history-mode pools (LIFO)"},
 			Outside:     []string{"the documented invalid-schema panic (the expander is a stub)", "panics raised inside other caller-supplied code"},
